@@ -44,7 +44,7 @@ def priority_rules(ctx):
     ex, paths = run_fn(po, F, BaseModel())
     from .common import search_table, is_eq_of, hit_is_index_of
     st = search_table(ex, paths)
-    bad = [M.short_name(M.call_name(t)) for bb, t in po.calls(r"Iterator>::(rev|rposition|skip|take|filter|step_by|skip_while|take_while|chain|zip)\b|::(binary_search\w*|sort\w*)$")]
+    bad = [M.short_name(M.call_name(t)) for bb, t in po.calls(r"Iterator>::(rev|rposition|skip|take|filter|step_by|skip_while|take_while|chain|zip)\b|::(binary_search\w*|sort\w*|partition_point|select_nth\w*)(::<.*>)?$")]
     if bad == ["zip"] and st["source"] and all(re.search(r"zip\(&?\*?self\.terminal_ids, RangeFrom\(0\)\)$", x) for x in st["source"]):
         bad = []        # zip(0..) numbers the elements front to back: enumerate with the pair the other way round
     if bad == ["take_while"] and st["source"] and all(re.search(r"^take_while\(&?\*?self\.terminal_ids, closure#", x) for x in st["source"]) and list(po.calls(r"iter::Iterator>::count$")):
@@ -52,6 +52,11 @@ def priority_rules(ctx):
     ok_src = bool(st["source"]) and all("self.terminal_ids" in x for x in st["source"]) and not bad
     ctx.ob("C01.c", "priority_of:searches-terminal_ids-front-to-back", ok_src, "search over %s; reordering / non-linear search calls: %s" % (sorted(set(st["source"])), bad), po.loc())
     ctx.floor("C01.c", "paths of priority_of that find the terminal", len(st["hit"]), 1)
+    # every way out of priority_of is an outcome of that one search (seed C17k: above 1024 terminals another algorithm answered)
+    known_ret = {id(p) for _r, _ic, p in st["hit"]} | {id(p) for _r, p in st.get("exhausted", [])}
+    stray = [p for p in paths if p.end and p.end[0] == "return" and id(p) not in known_ret]
+    ctx.ob("C01.c", "priority_of:every-result-comes-from-the-one-search", not stray,
+           ("%d return path(s) answer without the front-to-back search, e.g. %s under %s" % (len(stray), S.vstr(stray[0].end[1])[:80], [(S.fstr(c)[:50], o) for c, o in stray[0].conds][:3])) if stray else "all results are positions found by the search", po.loc())
     for r, ic, p in st["hit"]:
         good = [c for c, o in ic if o is True and is_eq_of(c, r"item@bb\d+(\.1)?\)?$", r"^\(?\*?terminal_id\)?$")]
         ok = bool(good) and hit_is_index_of(r, good[0])
